@@ -10,6 +10,7 @@ pub mod c04;
 pub mod c06;
 pub mod c07;
 pub mod c08;
+pub mod c11;
 pub mod c13;
 pub mod c14;
 pub mod c15;
@@ -85,6 +86,7 @@ pub fn lookup(id: &str) -> Option<Box<dyn Prop>> {
         "C06" => Some(Box::new(c06::C06)),
         "C07" => Some(Box::new(c07::C07)),
         "C08" => Some(Box::new(c08::C08)),
+        "C11" => Some(Box::new(c11::C11)),
         "C13" => Some(Box::new(c13::C13)),
         "C14" => Some(Box::new(c14::C14)),
         "C15" => Some(Box::new(c15::C15)),
